@@ -75,13 +75,23 @@ func drawFlow(t *rapid.T, check string) *Case {
 		}
 	}
 	p.SchedMonitor = check == "C20"
-	// httputil's maxLatencyWriter cannot be simulated together with responses that block
-	// on flow control: it holds its mutex across the blocked write while its timer
-	// goroutine (started at once for a negative interval or an unknown length, after
-	// 100ms by default) waits for that mutex - a wait synctest cannot see as durable
-	// (DESIGN.md 3.2).  So: no periodic flush, and the back-end always declares
-	// Content-Length (ReverseProxy then does not install the writer at all).
-	p.Args = []string{"-reverse-proxy-flush-interval", "0s"}
+	// (until wave 7: no periodic flush and Content-Length on every response, because a wait
+	// for maxLatencyWriter's mutex - held across a write blocked on flow control - kept the
+	// bubble from becoming quiescent)
+	// flush interval of the reverse proxy: none / the flag's default / a short period / immediate
+	// (periodic flushing under closed windows: a timer goroutine waits for maxLatencyWriter's
+	// mutex while the handler is blocked on flow control - simulated since lock waits count
+	// as blocked, DESIGN 15.5b)
+	switch rapid.IntRange(0, 9).Draw(t, "flushinterval") {
+	case 0, 1, 2, 3, 4, 5:
+		p.Args = []string{"-reverse-proxy-flush-interval", "0s"}
+	case 6:
+		p.Args = nil
+	case 7, 8:
+		p.Args = []string{"-reverse-proxy-flush-interval", []string{"1ms", "20ms", "3s"}[rapid.IntRange(0, 2).Draw(t, "flushperiod")]}
+	default:
+		p.Args = []string{"-reverse-proxy-flush-interval", "-1ns"}
+	}
 
 	iws := int64([]int{0, 1, 100, 16384, 65535, 1 << 20}[rapid.IntRange(0, 5).Draw(t, "iws0")])
 	// focus (4% of C12 runs): the back-end answers early without reading an upload while the
